@@ -30,7 +30,7 @@ FILES = {
     "webpsan/src/parse/integers.rs": ["C17", "C06"],
     "webpsan/src/parse/header.rs": ["C17", "C06"],
     "mp4san/src/lib.rs": ["C05", "C01", "C03", "C02", "C14", "C10", "C13"],
-    "mp4san/src/parse/mp4box.rs": ["C05", "C04", "C16", "C10"],
+    "mp4san/src/parse/mp4box.rs": ["C05", "C04", "C16", "C10", "C13"],
     "mp4san/src/parse/header.rs": ["C16", "C05", "C04", "C10"],
     "mp4san/src/parse/array.rs": ["C05", "C04", "C09"],
     "mp4san/src/parse/stbl.rs": ["C05"],
